@@ -44,6 +44,10 @@ impl Re {
     pub uninterp spec fn min_len(&self) -> nat;            // every match is at least this long
     pub uninterp spec fn always(&self) -> bool;            // matches the empty string, i.e. never None
     pub uninterp spec fn ascii_delims(&self) -> bool;      // match begins and ends with a 1-byte char
+    // patterns built on one character class C (identified by a number):
+    pub uninterp spec fn cls(&self) -> int;
+    pub uninterp spec fn run_of_cls(&self) -> bool;        // ^[C]* : the maximal leading run of C characters
+    pub uninterp spec fn one_of_cls(&self) -> bool;        // [C]   : the first C character
 }
 
 impl Src {
@@ -51,6 +55,7 @@ impl Src {
     pub uninterp spec fn is_boundary(&self, i: int) -> bool;
     pub uninterp spec fn spec_find(&self, re: Re, i: int) -> Option<Match>;
     pub uninterp spec fn spec_starts_with(&self, i: int, s: Lit) -> bool;
+    pub uninterp spec fn in_cls(&self, c: int, i: int) -> bool;   // the character starting at boundary i belongs to class c
     pub open spec fn ok(&self, i: int) -> bool { 0 <= i <= self.slen() && self.is_boundary(i) && self.slen() <= isize::MAX }
 
     #[verifier::external_body]
@@ -82,7 +87,11 @@ impl Src {
                 &&& (re.anchored() ==> m.st == 0)
                 &&& m.en - m.st >= re.min_len()
                 &&& (re.ascii_delims() ==> self.is_boundary(i + m.st + 1) && self.is_boundary(i + m.en - 1))
+                &&& (re.run_of_cls() ==> m.st == 0 && (i + m.en < self.slen() ==> !self.in_cls(re.cls(), i + m.en)) && (m.en > 0 ==> self.in_cls(re.cls(), i as int)))
+                &&& (re.one_of_cls() ==> m.st < m.en && self.in_cls(re.cls(), i + m.st))
             }),
+            re.run_of_cls() ==> r is Some,
+            re.one_of_cls() && i < self.slen() && self.in_cls(re.cls(), i as int) ==> (r matches Some(m) && m.st == 0),
     { unimplemented!() }
 
     // `self.src[i..].starts_with(lit)`
